@@ -334,6 +334,21 @@ impl CompressedUsedLeafsIndexes {
         }
     }
 
+    /// A counter that is not below the total number of signatures selects no leaf.
+    pub fn is_valid_for<H: HashChain>(
+        &self,
+        parameters: &ArrayVec<[HssParameter<H>; MAX_ALLOWED_HSS_LEVELS]>,
+    ) -> bool {
+        let total_tree_height: u32 = parameters
+            .iter()
+            .map(|parameter| parameter.get_lms_parameter().get_tree_height() as u32)
+            .sum();
+
+        self.count
+            .checked_shr(total_tree_height)
+            .map_or(true, |rest| rest == 0)
+    }
+
     pub fn to<H: HashChain>(
         &self,
         parameters: &ArrayVec<[HssParameter<H>; MAX_ALLOWED_HSS_LEVELS]>,
